@@ -15,6 +15,7 @@ PROP = {
         "and are varied independently of the URL as the repository's own plugin tests do (in production they are substrings of the URL)",
         "'fresh => hit' is not asserted (the statement does not promise hits); hits are counted in the evidence (req:hit / probe:hit)",
         "a request at exactly the expiry instant may be answered either way",
+        "time-to-live is elapsed time: in one caching case of four the wall clock (Clock.Now) is set back by 1 ns - 1 h now and then (NTP step, VM resume, date -s) while the timers (Clock.Sleep/After) run on, as the runtime's monotonic timers do; in those cases due timers always fire and no reader is held at its freshness test (a late timer or a held reader is covered by the wall-clock comparison alone, which cannot work across a wall clock set back - not counted against the gateway); the wall clock is never set forward (that ends entries early, which the statement allows)",
         "absolute retry-after: the plugin measures 'now' with one-second resolution (Unix()), so an entry may live until A + frac(store instant) < A + 1 s; that reading and the exact one are both accepted",
         "relative retry-after in a replay must equal original - elapsed within 1e-6 s; all other headers, status and body must be identical to the stored response",
         "held size is measured in body bytes of the entries that the plugin serves at that instant over the whole key space (a lower bound of the plugin's own size measure); expired entries awaiting clean-up are not observable",
